@@ -386,3 +386,18 @@ Proof.
     + assert (0 < gsz g) by (destruct g as [|x g]; [congruence|]; change (gsz (x :: g)) with (fsz x + gsz g); unfold fsz; lia).
       rewrite fpd_skip by (cbn; lia). rewrite fpd_take_some by (try assumption; lia). reflexivity.
 Qed.
+
+(** an object without Number of Frames holds one frame (number_of_frames().unwrap_or(1)),
+    whatever the number of fragments of that frame *)
+Lemma frame_extract_no_nframes (g : list bytes) :
+  g <> [] ->
+  frame_pixel_data None (bot_spec 0 [g]) (concat [g]) 0 = Some (concat g).
+Proof.
+  intros Hg. unfold frame_pixel_data. cbn [concat bot_spec]. rewrite app_nil_r.
+  destruct (N.of_nat (length g) =? 1) eqn:E.
+  - destruct g as [|x [|y g]]; [congruence| |cbn [length] in E; lia].
+    cbn. now rewrite app_nil_r.
+  - cbn [N.to_nat nth_error Nat.add]. change (0 =? 0) with true. cbv iota.
+    change (nth_error [0] (Pos.to_nat 1)) with (@None N).
+    rewrite fpd_take_none by lia. reflexivity.
+Qed.
